@@ -274,6 +274,32 @@ pub fn generate(ctx: &mut Ctx) {
         }
         bi += 1;
     }
+    // the full product of authority shapes, all pairs (stand-alone and inside a reference)
+    {
+        let uis: [Option<&str>; 6] = [None, Some(""), Some("u"), Some("%75"), Some("u:p"), Some(":")];
+        let hosts = ["", "h", "%68", "H", "[::1]", "1.2.3.4"];
+        let ports: [Option<&str>; 4] = [None, Some(""), Some("80"), Some("080")];
+        let mut auths: Vec<String> = Vec::new();
+        for u in uis { for h in hosts { for p in ports {
+            let mut a = String::new();
+            if let Some(u) = u { a.push_str(u); a.push('@'); }
+            a.push_str(h);
+            if let Some(p) = p { a.push(':'); a.push_str(p); }
+            auths.push(a);
+        } } }
+        for (i, x) in auths.iter().enumerate() {
+            if ctx.mine(bi) {
+                for y in auths.iter() {
+                    ctx.run(Case::new("comp").arg(x.as_str()).arg(y.as_str()).num(0));
+                    if (i + y.len()) % 3 == 0 {
+                        ctx.run(Case::new("pair").arg(format!("s://{}/p?q", x)).arg(format!("s://{}/p?q", y)));
+                        ctx.run(Case::new("pair").arg(format!("//{}", x)).arg(format!("//{}", y)));
+                    }
+                }
+            }
+            bi += 1;
+        }
+    }
     for (a, b) in [("", ""), ("80", "80"), ("80", "080"), ("", "0"), ("1", "2")] {
         if ctx.mine(bi) {
             ctx.run(Case::new("comp").arg(a).arg(b).num(8));
